@@ -286,3 +286,29 @@ PROPS["C19"] = dict(
     outside="PreSharedKey::from_str's line splitting and header comparison; Display/to_key_file (format! machinery) and therefore the print->parse round trip; lines of other lengths; the plaintext handshake and pnet stream transparency (XSalsa20 + async I/O)",
     stubs=[TRACING, FMT], assumptions=[FORGET], hooks=["hook: libp2p_pnet::verif_hooks::parse_hex_key (wrapper calling the private function)"],
 )
+
+
+# functions of /repo each property's harnesses call (directly or through the hooks); written
+# into the evidence next to the functions CBMC reported checks in
+FUNCTIONS = {
+    "C10": ["libp2p_swarm::connection::compute_new_shutdown", "libp2p_swarm::connection::checked_add_fraction"],
+    "C13": ["libp2p_swarm::translation::_address_translation"],
+    "C19": ["libp2p_pnet::parse_hex_key"],
+    "C20": ["libp2p_identity::PeerId::from_bytes", "libp2p_identity::PeerId::from_multihash", "libp2p_identity::PeerId::to_bytes",
+            "libp2p_identity::ecdsa::PublicKey::try_decode_der", "libp2p_identity::ecdsa::PublicKey::del_asn1_header"],
+    "C22": ["libp2p_core::transport::global_only::Transport::dial", "global_only::ipv4_global::is_global", "global_only::ipv6_global::is_global"],
+    "C25": ["libp2p_mplex::codec::Codec::decode", "libp2p_mplex::codec::Codec::encode", "libp2p_mplex::codec::RemoteStreamId::into_local"],
+    "C31": ["libp2p_gossipsub::protocol::validate_rpc_limits", "prost_codec::consume_message_prefix", "prost_codec::decode_field_tag", "prost_codec::consume_message"],
+    "C34": ["libp2p_gossipsub::config::ConfigBuilder::{mesh_n, mesh_n_low, mesh_n_high, mesh_outbound_min, history_length, history_gossip, max_transmit_size, build}",
+            "libp2p_gossipsub::config::Config getters"],
+    "C37": ["libp2p_kad::kbucket::bucket::KBucket::{new, insert, update, remove, apply_pending, update_pending, remove_pending, status, iter, position}",
+            "libp2p_kad::kbucket::entry::{Entry::new, PresentEntry, PendingEntry, AbsentEntry}"],
+    "C38": ["libp2p_kad::kbucket::ClosestBucketsIter::{new, next, next_in, next_out}"],
+    "C40": ["libp2p_kad::kbucket::key::KeyBytes::{distance, for_distance}", "libp2p_kad::kbucket::key::Distance::ilog2",
+            "libp2p_kad::kbucket::BucketIndex::{new, range}", "U256 ordering / arithmetic"],
+    "C42": ["libp2p_kad::protocol::record_to_proto", "libp2p_kad::protocol::record_from_proto",
+            "libp2p_kad::behaviour::earliest_expiry", "libp2p_kad::behaviour::exp_decrease"],
+    "C56": ["libp2p_webrtc_utils::stream::state::State::{handle_inbound_flag, read_barrier, write_barrier, close_read_barrier, close_write_barrier, close_read_message_sent, close_write_message_sent, read_closed, write_closed, read_flags_in_async_write}"],
+    "C57": ["prost_codec::Codec::decode", "prost_codec::Codec::encode"],
+    "C58": ["code generated by libp2p_swarm_derive::NetworkBehaviour: handle_pending_inbound_connection, handle_established_inbound_connection, handle_pending_outbound_connection, handle_established_outbound_connection, on_swarm_event, on_connection_handler_event"],
+}
